@@ -12,7 +12,7 @@ ENV=dict(os.environ, GOFLAGS='-mod=mod', GOPROXY='off', GOSUMDB='off', GOTOOLCHA
 SRC=os.environ.get('SEED_SRC','/tmp/wt/out'); DST='/verif/seeded'
 LINT=os.environ.get('LINT','/verif/bin/ipfixlint')
 OLD=os.environ.get('OLD_LINT','')  # optional: analyser binary as committed before the seeds were seen
-FORCE_RACE={('C12','m1'),('C14','m2')}
+FORCE_RACE={('C12','m1'),('C14','m2'),('C13','m10')}
 import glob
 for f in glob.glob(SRC+'/*/m*/meta.txt'):
     t=open(f).read()
@@ -50,13 +50,26 @@ def one(prop, m):
         det={}
         os.makedirs(f'/tmp/wt/ev_{prop}_{m}', exist_ok=True)
         shutil.copy('/verif/known_findings.json', f'/tmp/wt/ev_{prop}_{m}/known_findings.json')
-        for q in PROPS:
+        if os.environ.get('SCANALL'):
+            # one process, the tree loaded once, every property's quick rules (ipfixlint -scan-all)
+            rc,out=sh(f'{LINT} -scan-all -repo {wt} -verif /tmp/wt/ev_{prop}_{m}')
+            for l in out.splitlines():
+                mm=re.match(r'^(C\d+) (VIOLATION .*)$', l)
+                if mm: det.setdefault(mm.group(1),[]).append(mm.group(2)[:400])
+            det={k:v[:4] for k,v in det.items()}
+            if rc!=0: det[prop+'?']=[f'exit {rc}: '+out[-300:]]
+        else:
+          for q in PROPS:
             rc,out=sh(f'{LINT} -prop {q} -tier quick -repo {wt} -verif /tmp/wt/ev_{prop}_{m}')
             v=[l for l in out.splitlines() if l.startswith('VIOLATION')]
             if rc!=0 or v:
                 det[q]=[re.sub(r' replay=\S+','',l)[:400] for l in v[:4]] or [f'exit {rc}: '+out[-300:]]
         res['detected_by']=det
-        if OLD:
+        prev=f'{DST}/{prop}-{m}/meta.json'
+        if os.environ.get('BEFORE_FROM_META') and os.path.exists(prev):
+            pm=json.load(open(prev))
+            res['detected_before']=pm.get('detected_by_checks_before_rules_were_strengthened', pm.get('detected_by_checks',{}))
+        elif OLD:
             det0={}
             for q in PROPS:
                 rc,out=sh(f'{OLD} -prop {q} -tier quick -repo {wt} -verif /tmp/wt/ev_{prop}_{m}')
@@ -82,7 +95,7 @@ def main():
             ok = r.get('demo_on_clean')=='pass' and r.get('patch_applies') and r.get('builds') and r.get('baseline_with_patch')=='pass' and r.get('demo_with_patch')=='fail'
             r['confirmed']=bool(ok)
             own = p in r.get('detected_by',{})
-            print(f"{p}-{m}: before={sorted(r.get('detected_before',{})) if OLD else '-'} confirmed={ok} clean={r.get('demo_on_clean')} applies={r.get('patch_applies')} baseline={r.get('baseline_with_patch')} demo_patched={r.get('demo_with_patch')} detected_by={sorted(r.get('detected_by',{}))} own={own}", flush=True)
+            print(f"{p}-{m}: before={sorted(r.get('detected_before',{})) if 'detected_before' in r else '-'} confirmed={ok} clean={r.get('demo_on_clean')} applies={r.get('patch_applies')} baseline={r.get('baseline_with_patch')} demo_patched={r.get('demo_with_patch')} detected_by={sorted(r.get('detected_by',{}))} own={own}", flush=True)
             out=f'{DST}/{p}-{m}'
             if ok:
                 os.makedirs(out, exist_ok=True)
